@@ -150,6 +150,25 @@ def _case(case):
                  f"changing {case['attr']} of {case['param']} leaves the "
                  "hash unchanged")
         return out, ("param",)
+    if kind == "exprbound":
+        from nanite import model as nmodel
+        mk = case["model"]
+
+        def P_with(**kw):
+            P = nmodel.models_available[mk].get_parameter_defaults()
+            P["R"].set(expr="2*5e-6", min=1e-6, max=2e-5)
+            P["R"].set(**kw)
+            return P
+        h0 = the_hash(fresh(), {"model_key": mk, "params_initial": P_with()})
+        h1 = the_hash(fresh(), {"model_key": mk,
+                                "params_initial": P_with(**case["edit"])})
+        v0, v1 = P_with()["R"].value, P_with(**case["edit"])["R"].value
+        if v0 != v1 and h0 == h1:
+            viol("hash-collision", f"{mk}:R(expr).{list(case['edit'])[0]}",
+                 f"bound {case['edit']} of the expression-constrained "
+                 f"parameter R changes its value ({v0} -> {v1}) but not "
+                 "the hash")
+        return out, ("exprbound", v0 != v1)
     if kind == "sample":
         h0 = the_hash(fresh(), {})
         for idx in case["indices"]:
@@ -241,6 +260,10 @@ def grid_cases():
             for attr in ("value", "min", "max", "vary", "expr"):
                 cases.append({"kind": "param", "model": mk, "param": pn,
                               "attr": attr})
+    for mk in ("hertz_para", "sneddon_spher_approx"):
+        for edit in ({"max": 5e-6}, {"min": 1.5e-5}, {"max": 8e-6},
+                     {"expr": "3*5e-6"}):
+            cases.append({"kind": "exprbound", "model": mk, "edit": edit})
     for col in ("force", "tip position"):
         for lo in range(0, 240, 20):
             cases.append({"kind": "sample", "col": col,
